@@ -221,6 +221,19 @@ CLAIMED["C02"] = dict(
          "expectation values exactly. (1) is unbounded in the Hamiltonian but enumerated in the order; (2) is exploration.",
     note=TB + "Trusted: harness/recipes.py (operator-level statement of RSPT), harness/detspace.py (determinant-space linear algebra, self-tested). No Lean theorem connects the operator-level formulas with the determinant-space recursion (K14a of the design is not built); that link is explored numerically.")
 
+CLAIMED["C03"] = dict(
+    category="exploration", design="DESIGN.md §4 C03",
+    technique="exact determinant-space construction of intermediate states as power series (exploration over random model Hamiltonians) + structural clauses (transposition, ground-state shift, MVP prefactors) decided by the proved Lean checker checkEquiv; block truncation table against its closed form",
+    text="Main clause: every enumerated block/order of every variant (pp, ip, ea, dip, dea), both subtract_gs flavours, is evaluated "
+         "with the integrals, orbital energies and ground-state coefficients of random canonical-HF determinant-space models and "
+         "must equal, exactly, the same-order coefficient of <I|H-E0|J> over intermediate states constructed explicitly (normalised "
+         "perturbed ground state, excitation operators, projection on the ground state and on lower classes, symmetric "
+         "orthonormalisation) - exploration, no theorem. Structural clauses: for every enumerated block the proved checker accepts "
+         "block(I,J) = transpose of block(J,I) in a real basis, M(no shift) - M(shift) = E(n) delta_IJ, and mvp_block_order = "
+         "documented prefactors x block x amplitude vector, each for all Hamiltonians and amplitudes (checkEquiv_sound). "
+         "block_order(0..5) equals n - (level_I + level_J).",
+    note=TB + "The spec-level Lean development of the design (isr_spec, isr_matrix_value, transpose_real) is not built: the tie of the derived expressions to explicit intermediate states is numerical (exact rationals, finitely many models). Trusted: harness/isr_oracle.py, harness/detspace.py. mp partitioning only; orders as enumerated.")
+
 PENDING = {
 }
 
